@@ -161,12 +161,14 @@ DesignHolds ==
 CodeHolds ==
   \A stack \in MCStacks : \A corr \in MCCorrSets(S, stack) : \A del \in BOOLEAN :
      C39Holds(S, stack, corr, del, ValidateAll(IDeviations, S, stack, corr, del))
-\* the model state without the clock (the design check does not depend on time stamps)
+\* The model state without time stamps and clock (the design check does not depend on them).
+\* Breadth-first search reaches every such state first by a shortest program; PutVersioning is
+\* the only call that does not advance the clock and it changes bver for good, so a shortest
+\* program also has the least clock: the view loses no behaviour within MaxClock.
 IView == [bver |-> S.bver, ups |-> S.ups,
           objs |-> [b \in Buckets |-> [k \in Keys |->
                      [i \in 1..Len(S.objs[b][k]) |-> [vid |-> S.objs[b][k][i].vid, dm |-> S.objs[b][k][i].dm,
                         latest |-> S.objs[b][k][i].latest, parts |-> S.objs[b][k][i].parts,
                         single |-> S.objs[b][k][i].single, class |-> S.objs[b][k][i].class,
-                        seq1 |-> S.objs[b][k][i].seq1]]]],
-          clock |-> S.clock]
+                        seq1 |-> S.objs[b][k][i].seq1]]]]]
 =============================================================================
